@@ -44,6 +44,8 @@ def run(ctx):
   ctx.require(len(tp) >= 10, 'schema lists only %d time-bearing paths' % len(tp))
   fields_named(ctx, tp)      # location-independent rules first
   identity_exit_only_for_one(ctx)
+  from rules import C02 as _c02      # repeat_sequence_to_duration cuts with _extract_subsequences: the state in force at 0 is carried into the result
+  _c02.carry_after_break(ctx, ctx.func(SL + ':_extract_subsequences'), 'REPEAT/carry-after-break')
   uniform(ctx, 'shift_sequence_times', {'sequence': own.NS}, {}, tp, 'aug:Add', 'shift_seconds',
           extra_allowed={('subsequence_info',): ('call:ClearField',)})
   for flag in (False, True):
